@@ -266,6 +266,14 @@ def region_edits(src, toks, relpath, name, spec, ex, lo_tok, hi_tok, body_lo_tok
                     target = loops[ordinal - 1]
                 elif len(hits) == 1:
                     target = hits[0]
+                elif len(hits) == 0 and 1 <= ordinal <= len(loops) and len(loops) == len(spec.loops):
+                    # same number of loops, but the header of this one was rewritten (while <-> loop, renamed
+                    # condition): the invariant is tried on the loop in the same position, and because it was
+                    # written for another loop shape a failure of this function needs a concrete witness
+                    target = loops[ordinal - 1]
+                    ex.notes.append('fn %s: header of loop %d is no longer `%s`; its invariant is tried on the loop in the '
+                                    'same position, failures need a witness' % (name, ordinal, prefix))
+                    ex.unannotated.setdefault(name, []).append('loop-header-changed: %s:%d' % (relpath, toks[target[0]].line))
                 elif len(hits) == 0:
                     # the loop this invariant belongs to is gone: nothing to annotate; the
                     # function's postconditions decide whether that matters
